@@ -538,6 +538,17 @@ def function(
         },
     )
 
+    # Docstring and signature are merged now: restore the parameter order of the signature
+    signature_order = [
+        arg.arg
+        for arg in function_def.args.args + function_def.args.kwonlyargs
+        if arg.arg in intermediate_repr["params"]
+    ]
+    intermediate_repr["params"] = OrderedDict(
+        (name, intermediate_repr["params"][name])
+        for name in signature_order
+        + [name for name in intermediate_repr["params"] if name not in signature_order]
+    )
     intermediate_repr["params"].update(params_to_append)
     intermediate_repr["params"] = OrderedDict(
         map(
